@@ -107,7 +107,7 @@ def app_of(o):
         return ("?",)
     if not p.app:
         return ("ACK", p.flags)
-    return ("DATA", p.flags, runner.DATE_RE.sub(b"\nDate: X\n", p.app))
+    return ("DATA", p.flags, runner.mask_app(p.app))
 
 
 KEEP_LAST = False
